@@ -133,7 +133,7 @@ def prepLat (lat : F64) : F64 :=
 theorem gars_scaleWith_eq (mulf : F64 → F64 → Int) (lat lon : F64) :
     GARS.scaleWith mulf lat lon =
       if F64.gt (F64.abs lat) MathF.qd then .error "lat" else
-      if lat.isNaN || lon.isNaN then .ok none else
+      if lat.isNaN || !lon.isFinite then .ok none else
       .ok (some (mulf (prepLon lon) (F64.ofInt GARS.m) - gars_lonorig * GARS.m,
                  mulf (prepLat lat) (F64.ofInt GARS.m) - gars_latorig * GARS.m)) := rfl
 
@@ -269,7 +269,7 @@ theorem cellRel_of_bound (a : F64) (s : Bool) (m : ℕ) (e : ℤ) (ha : a = .fin
 
 /-- generic form of the two scale steps (both coordinates), `k = m` the cells per degree -/
 theorem scale_contains_gen (k : ℕ) (hk1 : 1 ≤ k) (hk : (180:ℚ) * k ≤ 2 ^ 52) (lat lon : F64)
-    (h1 : F64.gt (F64.abs lat) MathF.qd = false) (h2 : (lat.isNaN || lon.isNaN) = false) :
+    (h1 : F64.gt (F64.abs lat) MathF.qd = false) (h2 : (lat.isNaN || !lon.isFinite) = false) :
     let b : F64 := .fin false k 0
     (lon.isFinite = true →
       CellRel (prepLon lon) b (F64.mulFloorExact (prepLon lon) b) (F64.mulFloorCoded (prepLon lon) b) ∧
@@ -333,7 +333,7 @@ coordinate the exact cell index is the cell of the prepared point `(prepLon lon,
 in the form `CellRel.1` — it lies in the valid range, and the coded index is the exact one or its upper neighbour in
 the precise circumstance of `CellRel` (finding F2).  For an infinite longitude both give the same column. -/
 theorem gars_scale_contains (lat lon : F64) (h1 : F64.gt (F64.abs lat) MathF.qd = false)
-    (h2 : (lat.isNaN || lon.isNaN) = false) :
+    (h2 : (lat.isNaN || !lon.isFinite) = false) :
     ∃ X Y X' Y' : ℤ, GARS.scaleExact lat lon = .ok (some (X, Y)) ∧ GARS.scale lat lon = .ok (some (X', Y')) ∧
       (lon.isFinite = true →
         CellRel (prepLon lon) (F64.ofInt GARS.m) (X + gars_lonorig * GARS.m) (X' + gars_lonorig * GARS.m) ∧
@@ -372,7 +372,7 @@ theorem gars_scale_shape (lat lon : F64) :
   rw [gars_scale_eq, gars_scaleExact_eq, gars_scaleWith_eq, gars_scaleWith_eq]
   by_cases h1 : F64.gt (F64.abs lat) MathF.qd = true
   · simp [h1]
-  · by_cases h2 : (lat.isNaN || lon.isNaN) = true
+  · by_cases h2 : (lat.isNaN || !lon.isFinite) = true
     · simp only [h1, h2, if_true, Bool.false_eq_true, if_false]; simp
     · simp only [h1, h2, Bool.false_eq_true, if_false]
       constructor
@@ -381,7 +381,7 @@ theorem gars_scale_shape (lat lon : F64) :
 
 /-- **`scale = scaleExact` whenever both products are representable** (GARS) -/
 theorem gars_scale_exact_of_representable (lat lon : F64) (h1 : F64.gt (F64.abs lat) MathF.qd = false)
-    (h2 : (lat.isNaN || lon.isNaN) = false) (hf : lon.isFinite = true)
+    (h2 : (lat.isNaN || !lon.isFinite) = false) (hf : lon.isFinite = true)
     (hx : (Dy.round53 (Dy.mul (prepLon lon).toDy (F64.ofInt GARS.m).toDy)).val = (prepLon lon).val * (F64.ofInt GARS.m).val)
     (hy : (Dy.round53 (Dy.mul (prepLat lat).toDy (F64.ofInt GARS.m).toDy)).val = (prepLat lat).val * (F64.ofInt GARS.m).val) :
     GARS.scale lat lon = GARS.scaleExact lat lon := by
@@ -410,7 +410,7 @@ theorem gars_scale_exact_of_representable (lat lon : F64) (h1 : F64.gt (F64.abs 
 
 /-- **`scale_contains`, Georef** — the same statement; `m = 6·10¹⁰` -/
 theorem georef_scale_contains (lat lon : F64) (h1 : F64.gt (F64.abs lat) MathF.qd = false)
-    (h2 : (lat.isNaN || lon.isNaN) = false) :
+    (h2 : (lat.isNaN || !lon.isFinite) = false) :
     ∃ X Y X' Y' : ℤ, Georef.scaleExact lat lon = .ok (some (X, Y)) ∧ Georef.scale lat lon = .ok (some (X', Y')) ∧
       (lon.isFinite = true →
         CellRel (prepLon lon) (F64.ofInt Georef.m) (X + georef_lonorig * Georef.m) (X' + georef_lonorig * Georef.m) ∧
@@ -426,7 +426,7 @@ theorem georef_scale_contains (lat lon : F64) (h1 : F64.gt (F64.abs lat) MathF.q
     intro mulf
     have : Georef.scaleWith mulf lat lon =
       if F64.gt (F64.abs lat) MathF.qd then .error "lat" else
-      if lat.isNaN || lon.isNaN then .ok none else
+      if lat.isNaN || !lon.isFinite then .ok none else
       .ok (some (mulf (prepLon lon) (F64.ofInt Georef.m) - georef_lonorig * Georef.m,
                  mulf (prepLat lat) (F64.ofInt Georef.m) - georef_latorig * Georef.m)) := rfl
     rw [this, h1, h2]; rfl
@@ -594,7 +594,7 @@ def ghLat (lat : F64) : F64 := if F64.eq lat MathF.qd then lat - (MathF.qd / shi
 theorem geohash_scale_eq (lat lon : F64) :
     Geohash.scale lat lon =
       if F64.gt (F64.abs lat) MathF.qd then .error "lat" else
-      if lat.isNaN || lon.isNaN then .ok none else
+      if lat.isNaN || !lon.isFinite then .ok none else
       .ok (some ((Dy.floor (F64.floor (prepLon lon / (MathF.hd / shift45)) + shift45).toDy).toNat,
                  (Dy.floor (F64.floor (ghLat lat / (MathF.qd / shift45)) + shift45).toDy).toNat)) := rfl
 
@@ -610,7 +610,7 @@ theorem geohash_scaleExact_eq (lat lon : F64) :
 that integer: class F2); in latitude the same away from the pole, and at `lat = 90` both give the last row `2^46 − 1`.
 The additions of `2^45` and the constants `loneps = 180/2^45`, `lateps = 90/2^45` are exact (proved, not assumed). -/
 theorem geohash_scale_contains (lat lon : F64) (h1 : F64.gt (F64.abs lat) MathF.qd = false)
-    (h2 : (lat.isNaN || lon.isNaN) = false) (hf : lon.isFinite = true) :
+    (h2 : (lat.isNaN || !lon.isFinite) = false) (hf : lon.isFinite = true) :
     ∃ nx ny cx cy : ℤ,
       Geohash.scaleExact lat lon = some ((nx + 2 ^ 45).toNat, (ny + 2 ^ 45).toNat) ∧
       Geohash.scale lat lon = .ok (some ((cx + 2 ^ 45).toNat, (cy + 2 ^ 45).toNat)) ∧
@@ -1113,7 +1113,7 @@ example : (match Georef.decodeInt (toBytes (Georef.encodeInt (183 * 60000000000 
 (degrees, `u = garsUnit prec`) and it contains the prepared position `(prepLon lon, prepLat lat)`.
 (`Forward` itself codes this cell or — in the circumstance described by `gars_scale_contains` — a neighbour: F2.) -/
 theorem gars_cell_contains (lat lon : F64) (h1 : F64.gt (F64.abs lat) MathF.qd = false)
-    (h2 : (lat.isNaN || lon.isNaN) = false) (hf : lon.isFinite = true) (prec : Nat) (hp : prec ≤ 2) :
+    (h2 : (lat.isNaN || !lon.isFinite) = false) (hf : lon.isFinite = true) (prec : Nat) (hp : prec ≤ 2) :
     ∃ X Y : ℤ, GARS.scaleExact lat lon = .ok (some (X, Y)) ∧
       ∃ d : GARS.Dec, GARS.decodeInt (toBytes (GARS.encodeInt X Y prec)) false = .ok d ∧
         d.prec = prec ∧ d.unit = garsUnit prec ∧
@@ -1201,7 +1201,7 @@ theorem gars_cell_contains (lat lon : F64) (h1 : F64.gt (F64.abs lat) MathF.qd =
 /-- **the decoded cell of the exact code contains the point** (Georef, minutes and finer, `2 ≤ prec ≤ 11`):
 the decoded numerators over `W = 6·10^(prec−1)` cells per degree bracket the prepared position. -/
 theorem georef_cell_contains (lat lon : F64) (h1 : F64.gt (F64.abs lat) MathF.qd = false)
-    (h2 : (lat.isNaN || lon.isNaN) = false) (hf : lon.isFinite = true) (p : Nat) (hp2 : 2 ≤ p) (hp11 : p ≤ 11) :
+    (h2 : (lat.isNaN || !lon.isFinite) = false) (hf : lon.isFinite = true) (p : Nat) (hp2 : 2 ≤ p) (hp11 : p ≤ 11) :
     ∃ X Y : ℤ, Georef.scaleExact lat lon = .ok (some (X, Y)) ∧
       ∃ d : Georef.Dec, Georef.decodeInt (toBytes (Georef.encodeInt X Y p)) false = .ok d ∧
         d.prec = p ∧ d.unit = 15 * georefW p ∧
@@ -1296,7 +1296,7 @@ with `z = lon'·2^45/180` (the longitude in units of `loneps`, `lon' = prepLon l
 `2^(46−k)` units, `k = ⌈5·len/2⌉`, satisfies `d.ulon·2^(46−k) − 2^45 ≤ z < (d.ulon+1)·2^(46−k) − 2^45`; the same in
 latitude with `k = ⌊5·len/2⌋` away from the pole, and the pole is in the last row. -/
 theorem geohash_cell_contains (lat lon : F64) (h1 : F64.gt (F64.abs lat) MathF.qd = false)
-    (h2 : (lat.isNaN || lon.isNaN) = false) (hf : lon.isFinite = true) (len : Nat) (hlen : len ≤ 18) :
+    (h2 : (lat.isNaN || !lon.isFinite) = false) (hf : lon.isFinite = true) (len : Nat) (hlen : len ≤ 18) :
     ∃ ulon ulat : ℕ, Geohash.scaleExact lat lon = some (ulon, ulat) ∧
       ∃ d : Geohash.Dec, Geohash.decodeInt (toBytes (Geohash.encodeInt ulon ulat len)) = .ok d ∧ d.len = len ∧
         ((d.ulon : ℚ) * (2:ℚ) ^ (46 - (5 * len + 1) / 2) - (2:ℚ) ^ 45 ≤ (prepLon lon).val * (2:ℚ) ^ (45:ℕ) / 180 ∧
